@@ -10,6 +10,7 @@ use crate::rng::Rng;
 use crate::world::{class_of, timed, Stop, R};
 use ahash::AHashMap;
 use bytes::Bytes;
+use iggy::binary::binary_client::BinaryClient;
 use iggy::client::*;
 use iggy::compression::compression_algorithm::CompressionAlgorithm;
 use iggy::consumer::Consumer;
@@ -522,7 +523,7 @@ impl Sys {
 }
 
 /// one guarded operation, performed on `c` against (s,t); returns the error class ("ok" if accepted)
-async fn perform(c: &RawClient, r: Rule, s: u32, t: u32, sys_seq: u64, hist: u64) -> R<&'static str> {
+async fn perform<C: BinaryClient>(c: &C, r: Rule, s: u32, t: u32, sys_seq: u64, hist: u64) -> R<&'static str> {
     let who = Consumer::new(sid(55));
     let name = format!("tmp-{}", sys_seq);
     let res: Result<(), IggyError> = match r {
@@ -627,6 +628,7 @@ pub async fn system_history(hseed: u64, cache: CacheMode, rep: &mut ShardReport)
     let mut rng = Rng::new(hseed);
     let mut cfg = StorageCfg::default();
     cfg.http = true;
+    cfg.quic = hseed % 2 == 0;
     let dir = scratch_root().join(format!("p{:016x}", hseed));
     let inst = match ServerInstance::start(&dir, &cfg, cache).await {
         Ok(i) => i,
@@ -673,7 +675,28 @@ async fn system_history_inner(sys: &mut Sys, rng: &mut Rng, rep: &mut ShardRepor
     let before = snapshot(&sys.root).await?;
     for variant in ["never-logged-in", "logged-out"] {
         let c = RawClient::connect(addr).await.map_err(Stop::Inconclusive)?;
-        if variant == "logged-out" {
+        unauth_sweep(sys, &c, variant, rep).await?;
+    }
+    // the same over the QUIC listener (its own framing, sender and session bookkeeping), with the SDK's QUIC client
+    if let Some(qaddr) = sys.inst.quic_addr {
+        for variant in ["never-logged-in-quic", "logged-out-quic"] {
+            let c = crate::codec::quic_client(qaddr).await.map_err(Stop::Inconclusive)?;
+            let r = unauth_sweep(sys, &c, variant, rep).await;
+            let _ = tokio::time::timeout(std::time::Duration::from_secs(5), iggy::client::Client::disconnect(&c)).await;
+            r?;
+        }
+    }
+    let after = snapshot(&sys.root).await?;
+    if before != after {
+        return Err(sv("unauthenticated-refused", "state-changed", sys.hist, &sys.ops, json!({"before": before, "after": after})));
+    }
+    system_history_rest(sys, rng, rep, addr, before).await
+}
+
+/// one unauthenticated connection: everything but ping and login is refused
+async fn unauth_sweep<C: BinaryClient>(sys: &mut Sys, c: &C, variant: &str, rep: &mut ShardReport) -> R<()> {
+    {
+        if variant.starts_with("logged-out") {
             timed("login", c.login_user("iggy", "iggy")).await?.map_err(|e| Stop::Inconclusive(e.to_string()))?;
             timed("logout", c.logout_user()).await?.map_err(|e| Stop::Inconclusive(e.to_string()))?;
         }
@@ -684,7 +707,7 @@ async fn system_history_inner(sys: &mut Sys, rng: &mut Rng, rep: &mut ShardRepor
         for r in RULES.iter() {
             sys.seq += 1;
             sys.ops.push(format!("{variant}: {r:?}(1,2)"));
-            let class = perform(&c, *r, 1, 2, sys.seq, sys.hist).await?;
+            let class = perform(c, *r, 1, 2, sys.seq, sys.hist).await?;
             rep.eval("C09:unauthenticated-refused");
             rep.op(&format!("unauth_{r:?}"));
             // an empty answer discloses nothing and performs nothing: it counts as refused
@@ -708,10 +731,10 @@ async fn system_history_inner(sys: &mut Sys, rng: &mut Rng, rep: &mut ShardRepor
         }
         rep.event(&format!("unauthenticated_connection_{variant}"));
     }
-    let after = snapshot(&sys.root).await?;
-    if before != after {
-        return Err(sv("unauthenticated-refused", "state-changed", sys.hist, &sys.ops, json!({"before": before, "after": after})));
-    }
+    Ok(())
+}
+
+async fn system_history_rest(sys: &mut Sys, rng: &mut Rng, rep: &mut ShardReport, addr: std::net::SocketAddr, before: Value) -> R<()> {
 
     // 2. HTTP without a bearer token: 401 everywhere but the paths the server declares public
     if let Some(h) = sys.inst.http_addr {
@@ -887,6 +910,6 @@ pub async fn run(ctx: &Ctx, rep: &mut ShardReport) {
             break;
         }
     }
-    rep.extra.insert("required_events".into(), json!(["rule_layer_records_x_targets", "system_history", "unauthenticated_connection_never-logged-in", "unauthenticated_connection_logged-out",
+    rep.extra.insert("required_events".into(), json!(["rule_layer_records_x_targets", "system_history", "unauthenticated_connection_never-logged-in", "unauthenticated_connection_logged-out", "unauthenticated_connection_never-logged-in-quic", "unauthenticated_connection_logged-out-quic",
         "http_without_token", "permissions_updated_on_open_connection", "deleted_user_open_connection", "guarded_operation_performed", "guarded_operation_refused"]));
 }
